@@ -146,8 +146,44 @@ Qed.
 
 (* ---- range ---- *)
 
-Lemma count_up_range n i lim step : count_up n i lim step = range_list n i lim step.
-Proof. revert i; induction n as [|n IH]; intros i; cbn; [reflexivity|]. rewrite IH. reflexivity. Qed.
+Lemma range_count_step i lim step : (0 < step)%Z -> (i < lim)%Z ->
+  range_count i lim step = S (range_count (i + step) lim step).
+Proof.
+  intros Hs Hi. unfold range_count.
+  destruct (Z.ltb_spec i lim); [|lia].
+  assert (Hq : ((lim - i + step - 1) / step = (lim - (i + step) + step - 1) / step + 1)%Z).
+  { replace (lim - i + step - 1)%Z with ((lim - (i + step) + step - 1) + 1 * step)%Z by lia.
+    rewrite Z.div_add by lia. reflexivity. }
+  destruct (Z.ltb_spec (i + step) lim).
+  - rewrite Hq.
+    assert (Hnn : (0 <= (lim - (i + step) + step - 1) / step)%Z) by (apply Z.div_pos; lia).
+    lia.
+  - (* the next element is not below the limit: exactly one element *)
+    assert (Hz : ((lim - (i + step) + step - 1) / step = 0)%Z) by (apply Z.div_small; lia).
+    rewrite Hq, Hz. reflexivity.
+Qed.
+
+Lemma range_values_nil i lim step : (lim <= i)%Z -> range_values i lim step = [].
+Proof. intros H. unfold range_values, range_count. destruct (Z.ltb_spec i lim); [lia | reflexivity]. Qed.
+
+Lemma range_values_cons i lim step : (0 < step)%Z -> (i < lim)%Z ->
+  range_values i lim step = VInt i :: range_values (i + step) lim step.
+Proof.
+  intros Hs Hi. unfold range_values. rewrite (range_count_step i lim step Hs Hi).
+  cbn [seq map]. f_equal; [f_equal; lia|].
+  rewrite <- seq_shift, map_map. apply map_ext. intros k. f_equal. lia.
+Qed.
+
+(* the loop of funcRange with enough iterations *)
+Lemma range_list_values step : (0 < step)%Z -> forall n i lim, (Z.to_nat (lim - i) <= n)%nat ->
+  range_list n i lim step = range_values i lim step.
+Proof.
+  intros Hs. induction n as [|n IH]; intros i lim Hn; cbn [range_list].
+  - rewrite range_values_nil; [reflexivity | lia].
+  - destruct (Z.ltb_spec i lim).
+    + rewrite (range_values_cons i lim step Hs H). f_equal. apply IH. lia.
+    + rewrite range_values_nil; [reflexivity | lia].
+Qed.
 
 (* ---- the functions, one by one ---- *)
 
@@ -322,12 +358,12 @@ Proof.
     all: try (destruct a; try err_ok; destruct c; try err_ok; cbn; rewrite contains_infix; reflexivity).
   - (* range *) eapply orel_impl_eq; [apply af_range|]. destruct args as [|a [|c [|d [|? ?]]]]; try err_ok.
     + destruct a; try err_ok.
-      all: try (cbn [apply_fn_spec bind fres_of]; unfold range_values; rewrite ?count_up_range, ?Z.sub_0_r; reflexivity).
+      cbn [apply_fn_spec bind fres_of]. rewrite (range_list_values 1 eq_refl); [reflexivity | lia].
     + destruct a; try err_ok; destruct c; try err_ok.
-      all: try (cbn [apply_fn_spec bind fres_of]; unfold range_values; rewrite ?count_up_range; reflexivity).
+      cbn [apply_fn_spec bind fres_of]. rewrite (range_list_values 1 eq_refl); [reflexivity | lia].
     + destruct a; try err_ok; destruct c; try err_ok; destruct d; try err_ok.
-      all: try (cbn [apply_fn_spec]; destruct (z1 <=? 0)%Z; [err_ok|];
-                cbn [bind fres_of]; unfold range_values; rewrite ?count_up_range; reflexivity).
+      cbn [apply_fn_spec]. destruct (Z.leb_spec z1 0); [err_ok|].
+      cbn [bind fres_of]. rewrite (range_list_values z1); [reflexivity | lia | lia].
     + destruct a; try err_ok; destruct c; try err_ok; destruct d; err_ok.
   - (* hasData *) eapply orel_impl_eq; [apply af_hasData|]. reflexivity.
 Qed.
